@@ -276,24 +276,32 @@ void debug_printdec_double_prec(double a, int prec)
     if (a < 0)
         a = -a;
 
+    if (prec > 18) // 10^prec has to fit uint64_t
+        prec = 18;
+
     uint64_t n = (uint64_t)a;
-
-    debug_printdec_uint64(n);
-    debug_putchar('.');
-
     double o = a - n;
 
+    // the fraction as an integer of prec digits, rounded to nearest
+    uint64_t scale = 1;
     for (int _iteration = 0; _iteration < prec; ++_iteration)
-    {
-        o *= 10;
+        scale *= 10;
 
-        if ((int)o == 0)
-            debug_putchar('0');
+    uint64_t frac = (uint64_t)(o * scale + 0.5);
+    if (frac >= scale) // rounding carried into the integer part
+    {
+        frac -= scale;
+        ++n;
     }
 
-    o += 0.5;
+    debug_printdec_uint64(n);
+    if (prec <= 0)
+        return;
 
-    debug_printdec_signed_long_long((long long)o);
+    // exactly prec fraction digits, leading zeros included
+    debug_putchar('.');
+    for (scale /= 10; scale != 0; scale /= 10)
+        debug_putchar('0' + (frac / scale) % 10);
 }
 
 void debug_printhex_ptr(const void *v)
